@@ -10,6 +10,44 @@ use std::sync::atomic::{AtomicU64, Ordering};
 use std::sync::Mutex;
 use std::time::Instant;
 
+/// Descriptor the harness reports on. `silence_library_stdout` points fd 1 at
+/// /dev/null (the library prints progress with println!) and keeps a duplicate
+/// of the real stdout here.
+static OUT_FD: std::sync::atomic::AtomicI32 = std::sync::atomic::AtomicI32::new(1);
+
+pub fn say(s: &str) {
+    let fd = OUT_FD.load(Ordering::SeqCst);
+    let mut line = s.as_bytes().to_vec();
+    line.push(b'\n');
+    let mut off = 0;
+    while off < line.len() {
+        let n = unsafe { libc::write(fd, line[off..].as_ptr() as *const libc::c_void, line.len() - off) };
+        if n <= 0 {
+            break;
+        }
+        off += n as usize;
+    }
+}
+
+#[macro_export]
+macro_rules! say {
+    ($($arg:tt)*) => { $crate::framework::say(&format!($($arg)*)) };
+}
+
+pub fn silence_library_stdout() {
+    use std::io::Write;
+    let _ = std::io::stdout().flush();
+    unsafe {
+        let saved = libc::dup(1);
+        let null = libc::open(b"/dev/null\0".as_ptr() as *const libc::c_char, libc::O_WRONLY);
+        if saved >= 0 && null >= 0 {
+            libc::dup2(null, 1);
+            libc::close(null);
+            OUT_FD.store(saved, Ordering::SeqCst);
+        }
+    }
+}
+
 #[derive(Clone, Copy, Debug, PartialEq, Eq)]
 pub enum Tier {
     Quick,
@@ -378,8 +416,8 @@ pub fn drive<C: Check>(check: &C, tier: Tier) -> i32 {
                         });
                         let _ = std::fs::create_dir_all(format!("{}/evidence", verif_dir()));
                         let _ = std::fs::write(format!("{}/evidence/{}.json", verif_dir(), id), serde_json::to_string_pretty(&ev).unwrap());
-                        println!("  rule=hang sig=wall_clock :: a run did not return within {} s", hang_limit_ms / 1000);
-                        println!("VIOLATION property={} replay={}", id, fname);
+                        say!("  rule=hang sig=wall_clock :: a run did not return within {} s", hang_limit_ms / 1000);
+                        say!("VIOLATION property={} replay={}", id, fname);
                         std::process::exit(1);
                     }
                 }
@@ -527,12 +565,12 @@ pub fn drive<C: Check>(check: &C, tier: Tier) -> i32 {
             eprintln!("HARNESS ERROR: cannot write {fname}: {e}");
             return 2;
         }
-        println!("  rule={} sig={} :: {}", v.rule, v.sig, v.detail);
-        println!("VIOLATION property={} replay={}", id, fname);
+        say!("  rule={} sig={} :: {}", v.rule, v.sig, v.detail);
+        say!("VIOLATION property={} replay={}", id, fname);
         reported.push(fname);
     }
     for l in &known_lines {
-        println!("{l}");
+        say!("{l}");
     }
 
     // Evidence.
@@ -625,7 +663,7 @@ pub fn drive<C: Check>(check: &C, tier: Tier) -> i32 {
         eprintln!("HARNESS ERROR: cannot write {ev_path}: {e}");
         return 2;
     }
-    println!(
+    say!(
         "{id} {}: {} runs ({} planned), {} distinct non-trivial shapes, {} states, {:.1}s, batch hash {:016x}, violations {}",
         tier.name(),
         acc.evaluations,
@@ -714,35 +752,35 @@ pub fn replay<C: Check>(check: &C, doc: &Value) -> i32 {
     };
     let out = check.run(&plan, true);
     for l in &out.trace {
-        println!("{l}");
+        say!("{l}");
     }
     let want_rule = doc["rule"].as_str().unwrap_or("");
     let want_sig = doc["sig"].as_str().unwrap_or("");
     let want_hash = doc["trace_hash"].as_str().unwrap_or("");
     let got_hash = format!("{:016x}", out.trace_hash);
-    println!("trace_hash recorded={want_hash} replayed={got_hash}");
+    say!("trace_hash recorded={want_hash} replayed={got_hash}");
     let hit = out
         .violations
         .iter()
         .find(|v| v.rule == want_rule && v.sig == want_sig);
     match hit {
         Some(v) => {
-            println!("  rule={} sig={} :: {}", v.rule, v.sig, v.detail);
+            say!("  rule={} sig={} :: {}", v.rule, v.sig, v.detail);
             if got_hash != want_hash {
-                println!("REPLAY: violation reproduced but event log differs (code changed since recording?)");
+                say!("REPLAY: violation reproduced but event log differs (code changed since recording?)");
             }
-            println!("VIOLATION property={} replay=<this file>", check.id());
+            say!("VIOLATION property={} replay=<this file>", check.id());
             1
         }
         None => {
             if out.violations.is_empty() {
-                println!("REPLAY: no violation on the current tree");
+                say!("REPLAY: no violation on the current tree");
                 0
             } else {
                 for v in &out.violations {
-                    println!("  other violation: rule={} sig={} :: {}", v.rule, v.sig, v.detail);
+                    say!("  other violation: rule={} sig={} :: {}", v.rule, v.sig, v.detail);
                 }
-                println!("VIOLATION property={} replay=<this file>", check.id());
+                say!("VIOLATION property={} replay=<this file>", check.id());
                 1
             }
         }
